@@ -275,6 +275,36 @@ def mutate_cookie(rng, cookie, cfg, others, tier, short):
     out.append(("tagzero", b"C" + b64e(msg + bytes(len(tag)))))
     out.append(("tagprefix", b"C" + b64e(msg + tag[:len(tag) // 2] + bytes(len(tag) - len(tag) // 2))))
     out.append(("tagshort", b"C" + b64e(msg + tag[:-1])))
+    # coordinated changes inside the tag: catch comparisons that add up / xor together / sort the differences
+    nt = len(tag)
+    pairs = [(i, j) for i in range(min(8, nt)) for j in range(i + 1, min(8, nt))]
+    pairs += [tuple(sorted(rng.sample(range(nt), 2))) for _ in range(24 if short else 8)]
+    for i, j in pairs:
+        for b in ((0, 7) if i < 8 and j < 8 else (rng.randrange(8),)):
+            t2 = bytearray(tag); t2[i] ^= 1 << b; t2[j] ^= 1 << b
+            out.append(("tagpair", b"C" + b64e(msg + bytes(t2))))
+        if tag[i] != tag[j]:
+            t2 = bytearray(tag); t2[i], t2[j] = t2[j], t2[i]
+            out.append(("tagswap", b"C" + b64e(msg + bytes(t2))))
+        t2 = bytearray(tag); t2[i] = (t2[i] + 1) & 255; t2[j] = (t2[j] - 1) & 255
+        out.append(("tagaddsub", b"C" + b64e(msg + bytes(t2))))
+    if tag[1:] + tag[:1] != tag:
+        out.append(("tagrot", b"C" + b64e(msg + tag[1:] + tag[:1])))
+    if tag[::-1] != tag:
+        out.append(("tagrev", b"C" + b64e(msg + tag[::-1])))
+    for x in (0xff, 0x80, 0x01):
+        out.append(("tagxorall", b"C" + b64e(msg + bytes(v ^ x for v in tag))))
+    if len(msg) >= 2:
+        # the same coordinated changes between a body byte and a tag byte / two body bytes
+        for _ in range(6):
+            i, j = rng.randrange(len(msg)), rng.randrange(nt)
+            b = rng.randrange(8)
+            m2 = bytearray(msg); t2 = bytearray(tag); m2[i] ^= 1 << b; t2[j] ^= 1 << b
+            out.append(("bodytagpair", b"C" + b64e(bytes(m2) + bytes(t2))))
+            i2 = rng.randrange(len(msg))
+            if i2 != i:
+                m2 = bytearray(msg); m2[i] ^= 1 << b; m2[i2] ^= 1 << b
+                out.append(("bodypair", b"C" + b64e(bytes(m2) + tag)))
     out.append(("oneblock", b"C" + b64e(msg[:blk] + tag)))
     # splices with other valid cookies (same and different key material)
     for oc in others:
